@@ -151,6 +151,7 @@ type ValueOpts struct {
 	NoRaw    bool       // never generate raw dynamic values
 	DynLeaf  []ref.Kind // leaf kinds of dynamic values (defaults to constructors)
 	LongRaw  bool       // now and then a raw buffer of several thousand bytes (around 4096 and 8192)
+	LongList bool       // now and then a list or map of 100..300 entries (of one kind of dynamic value when the elements are dynamic)
 }
 
 // DefaultValueOpts is a small configuration.
@@ -257,6 +258,27 @@ func drawValue(t *rapid.T, ty *ref.Type, o ValueOpts, dyn int) interface{} {
 		return drawValue(t, ref.ObjectRefType, o, dyn)
 	case ref.KList:
 		n := rapid.IntRange(0, o.MaxLen).Draw(t, "len")
+		if o.LongList && rapid.IntRange(0, 39).Draw(t, "longlist") == 0 {
+			n = rapid.SampledFrom([]int{99, 100, 101, 150, 300}).Draw(t, "longlen")
+			l := make(ref.List, n)
+			small := o
+			small.MaxLen, small.LongList, small.LongRaw = 1, false, false
+			same := ty.Elem.Kind == ref.KValue && rapid.Bool().Draw(t, "samekind")
+			var dk ref.Dyn
+			if same {
+				// all elements of one kind of dynamic value (e.g. a hundred raw buffers)
+				k := ref.Scalar(rapid.SampledFrom([]ref.Kind{ref.KRaw, ref.KRaw, ref.KString, ref.KInt32, ref.KVoid}).Draw(t, "elemkind"))
+				dk = ref.Dyn{T: k}
+			}
+			for i := range l {
+				if same {
+					l[i] = ref.Dyn{T: dk.T, V: drawValue(t, dk.T, small, 0)}
+				} else {
+					l[i] = drawValue(t, ty.Elem, small, 0)
+				}
+			}
+			return l
+		}
 		l := make(ref.List, n)
 		for i := range l {
 			l[i] = drawValue(t, ty.Elem, o, dyn)
